@@ -162,7 +162,7 @@ func cmdCheck(args []string) int {
 	var order []string
 	vacuity := 0
 	for _, vc := range all {
-		if vc.Kind == "vacuity" {
+		if vc.Kind == "vacuity" || vc.Kind == "canary" {
 			vacuity++
 		}
 		o := byName[vc.Obl]
@@ -177,6 +177,22 @@ func cmdCheck(args []string) int {
 		if !vcGood(vc) {
 			o.OK = false
 			o.Reason = fmt.Sprintf("path %q: solver answer %s (%s)", vc.Path, vc.Status, vc.Solver)
+		}
+	}
+	// canaries: one live return path is enough
+	for _, o := range byName {
+		if o.Kind != "canary" {
+			continue
+		}
+		o.Kind = "vacuity"
+		o.OK = false
+		for _, vc := range o.VCs {
+			if vcGood(vc) {
+				o.OK = true
+			}
+		}
+		if !o.OK {
+			o.Reason = "every return path of the function is provably unreachable under its assumptions"
 		}
 	}
 	for _, te := range toolErrs {
@@ -353,7 +369,7 @@ func countsFor(pc *PropConfig, vc *VC, sweep bool) bool {
 			return false
 		}
 	}
-	if vc.Kind == "vacuity" {
+	if vc.Kind == "vacuity" || vc.Kind == "canary" {
 		return true
 	}
 	if len(pc.Kinds) > 0 {
